@@ -14,6 +14,22 @@ From JS Require JsonTags JDocShape.
 Theorem C04_required_fields_are_unconditional : tags_check = true.
 Proof. exact tags_check_ok. Qed.
 
+(* the dynamic reading: for EVERY value a struct of the regenerated tag table may hold, the JSON
+   object encoding/json writes for it (omitempty applied) carries every field the JDoc Exchange
+   shape requires of that entity, with that field's value ... *)
+Theorem C04_every_entity_always_carries_its_required_fields :
+  forall e anchors fields fs value f,
+    In (e, anchors, fields) JDocShape.required_fields -> In fs (structs_with anchors) -> In f fields ->
+    lookup (match marshal_struct fs value with JObj o => o | _ => nil end) f = Some (value f).
+Proof. exact every_entity_always_carries_its_required_fields. Qed.
+
+(* ... and a schema node never carries the field of the other kind *)
+Theorem C04_no_schema_node_carries_the_other_kinds_field :
+  forall e anchors fields fs value f,
+    In (e, anchors, fields) JDocShape.forbidden_fields -> In fs (structs_with anchors) -> In f fields ->
+    lookup (match marshal_struct fs value with JObj o => o | _ => nil end) f = None.
+Proof. exact no_schema_node_carries_the_other_kinds_field. Qed.
+
 (* for EVERY content tree (any depth and width), the JSON produced by the two ExchangeContent
    marshalers is typed consistently: object/array nodes carry children and no scalar value,
    all other nodes carry a scalar value and no children *)
@@ -28,3 +44,5 @@ Proof. vm_compute. reflexivity. Qed.
 
 Print Assumptions C04_required_fields_are_unconditional.
 Print Assumptions C04_schema_nodes_typed_consistently.
+Print Assumptions C04_every_entity_always_carries_its_required_fields.
+Print Assumptions C04_no_schema_node_carries_the_other_kinds_field.
